@@ -1091,11 +1091,11 @@ package gorm
 //@   in gorm.Scan
 //@   do rowsErrSeen = 1
 //@ site not-found-only-after-the-cursor-error
-//@   match call gorm.(*DB).AddError
+//@   match load Statement.RaiseErrorOnNotFound
 //@   in gorm.Scan
-//@   min-sites 6
+//@   min-sites 1
 //@   entry rowsErrSeen == 0
-//@   assert cursor-error-looked-at-first: arg1 == ErrRecordNotFound ==> rowsErrSeen == 1 [C15]
+//@   assert cursor-error-looked-at-first: rowsErrSeen == 1 [C15]
 
 //@ # ---------- C18/C04: a nested block is set up and undone on the caller's handle ----------
 //@ # SAVEPOINT and ROLLBACK TO SAVEPOINT of a nested Transaction carry the same context (and run on the same
